@@ -12,7 +12,7 @@ use crate::verif_kani::util::*;
 use std::collections::HashMap;
 use std::hash::RandomState;
 
-pub const RING_CAP: usize = 128; // data area; max command length = 16 bytes, enough for remove/keepalive-size commands
+pub const RING_CAP: usize = 512; // data area; max command length = capacity / 8 = 64 bytes
 pub const RING_LEN: usize = RING_CAP + 768;
 
 /// What the recording handlers saw. One static with a distinctive non-zero field (Kani merges all-zero statics).
@@ -260,13 +260,13 @@ macro_rules! heartbeat_step {
         }
     };
 }
-// @verif tier=quick unwind=4 fs=1100
+// @verif tier=quick unwind=4 fs=1300
 heartbeat_step!(c11_heartbeat_step_no_counter, 0);
-// @verif tier=quick unwind=4 fs=1100
+// @verif tier=quick unwind=4 fs=1300
 heartbeat_step!(c11_heartbeat_step_counter_found, 1);
-// @verif tier=quick unwind=4 fs=1100
+// @verif tier=quick unwind=4 fs=1300
 heartbeat_step!(c11_heartbeat_step_counter_known_active, 2);
-// @verif tier=quick unwind=4 fs=1100
+// @verif tier=quick unwind=4 fs=1300
 heartbeat_step!(c11_heartbeat_step_counter_reclaimed, 3);
 
 // ------------------------------------------------------------------------------------------------------------------
@@ -278,42 +278,292 @@ fn heap_log_buffers(mem: &mut Mem<{ 3 * 64 + 4096 }>) -> LogBuffers {
 
 /// One managed-resource check from an arbitrary entry state: the mapping is dropped exactly when no handle exists,
 /// it was already stamped, and strictly more than the linger period has passed since the stamp.
-// @verif tier=quick unwind=4 unwindset=swap_nonoverlapping_chunks:40
+/// (`in_use`, `stamped`) are concrete per instance; now / stamp / linger period are symbolic.
+macro_rules! linger_step {
+    ($name:ident, $in_use:expr, $stamped:expr) => {
+        #[kani::proof]
+        #[kani::stub(std::hash::RandomState::new, stub_random_state)]
+        fn $name() {
+            let mut b = Bufs::new();
+            let mut logmem = Mem::<{ 3 * 64 + 4096 }>::zeroed();
+            let linger = any_timeout();
+            let mut c = conductor(&mut b, 1000, linger, 1000);
+            let lb = Arc::new(heap_log_buffers(&mut logmem));
+            let in_use: bool = $in_use;
+            let handle = if in_use { Some(lb.clone()) } else { None };
+            let stamped: bool = $stamped;
+            let stamp = any_time();
+            let now = any_time();
+            kani::assume(stamp <= now);
+            let mut defn = LogBuffersDefn::new(lb);
+            if stamped {
+                defn.time_of_last_state_change_ms = stamp;
+            }
+            c.log_buffers_by_registration_id.insert(42, defn);
+
+            c.on_check_managed_resources(now);
+
+            let still = c.log_buffers_by_registration_id.get(&42);
+            let expect_removed = !in_use && stamped && now > stamp + linger;
+            assert!(still.is_none() == expect_removed, "C12: log memory is released exactly when no handle exists and more than the linger period passed since the last handle went away");
+            if let Some(d) = still {
+                if !in_use && !stamped {
+                    assert!(d.time_of_last_state_change_ms == now, "C12: the moment the last handle is found gone is stamped");
+                } else if in_use {
+                    assert!(d.time_of_last_state_change_ms == if stamped { stamp } else { MAX_MOMENT }, "C12: memory in use is left alone");
+                }
+            }
+            if !in_use && stamped {
+                kani::cover!(expect_removed, "[must] removal path");
+                kani::cover!(now == stamp + linger, "[must] exact linger boundary");
+                kani::cover!(now < linger, "[must] clock value smaller than the linger period");
+            }
+            std::mem::forget(handle);
+            std::mem::forget(c);
+        }
+    };
+}
+// @verif tier=quick unwind=4 unwindset=swap_nonoverlapping_chunks:8 timeout=1200
+linger_step!(c12_linger_step_unreferenced_stamped, false, true);
+// @verif tier=quick unwind=4 unwindset=swap_nonoverlapping_chunks:8
+linger_step!(c12_linger_step_unreferenced_unstamped, false, false);
+// @verif tier=quick unwind=4 unwindset=swap_nonoverlapping_chunks:8
+linger_step!(c12_linger_step_in_use, true, true);
+
+/// Lingering image lists: a retired image vector is kept for at least the linger period after it was retired.
+// @verif tier=quick unwind=4
 #[kani::proof]
 #[kani::stub(std::hash::RandomState::new, stub_random_state)]
-fn c12_log_buffers_linger_step() {
+fn c12_image_list_linger_step() {
     let mut b = Bufs::new();
-    let mut logmem = Mem::<{ 3 * 64 + 4096 }>::zeroed();
     let linger = any_timeout();
     let mut c = conductor(&mut b, 1000, linger, 1000);
-    let lb = Arc::new(heap_log_buffers(&mut logmem));
-    let in_use: bool = kani::any();
-    let handle = if in_use { Some(lb.clone()) } else { None };
-    let stamped: bool = kani::any();
     let stamp = any_time();
     let now = any_time();
     kani::assume(stamp <= now);
-    let mut defn = LogBuffersDefn::new(lb);
-    if stamped {
-        defn.time_of_last_state_change_ms = stamp;
-    }
-    c.log_buffers_by_registration_id.insert(42, defn);
-
+    c.lingering_image_lists.push(ImageListLingerDefn::new(stamp, Vec::new()));
     c.on_check_managed_resources(now);
-
-    let still = c.log_buffers_by_registration_id.get(&42);
-    let expect_removed = !in_use && stamped && now > stamp + linger;
-    assert!(still.is_none() == expect_removed, "C12: log memory is released exactly when no handle exists and more than the linger period passed since the last handle went away");
-    if let Some(d) = still {
-        if !in_use && !stamped {
-            assert!(d.time_of_last_state_change_ms == now, "C12: the moment the last handle is found gone is stamped");
-        } else if in_use {
-            assert!(d.time_of_last_state_change_ms == if stamped { stamp } else { MAX_MOMENT }, "C12: memory in use is left alone");
-        }
-    }
-    kani::cover!(expect_removed, "[must] removal path");
-    kani::cover!(!in_use && stamped && now == stamp + linger, "[must] exact linger boundary");
-    kani::cover!(!in_use && stamped && now < linger, "[must] clock value smaller than the linger period");
-    std::mem::forget(handle);
+    let kept = c.lingering_image_lists.len() == 1;
+    assert!(c.lingering_image_lists.len() <= 1, "C12: no image list is invented");
+    assert!(kept == (now <= stamp + linger), "C12: a retired image list lingers exactly until the linger period has passed");
+    kani::cover!(!kept, "[must] released path");
+    kani::cover!(now == stamp + linger, "[must] exact linger boundary");
+    kani::cover!(now < linger, "[must] clock value smaller than the linger period");
     std::mem::forget(c);
 }
+
+// ------------------------------------------------------------------------------------------------------------------
+// C09 — registration protocol: add / driver answer / find / release, one resource at a time, short histories.
+
+/// ring record `k` header (records are laid out from index 0 of an initially empty ring; offsets are concrete)
+fn rec_len(b: &mut Bufs, at: usize) -> i32 {
+    b.ring.buf().get::<i32>(at as i32)
+}
+fn rec_type(b: &mut Bufs, at: usize) -> i32 {
+    b.ring.buf().get::<i32>(at as i32 + 4)
+}
+fn rec_i64(b: &mut Bufs, at: usize, field: usize) -> i64 {
+    b.ring.buf().get::<i64>((at + 8 + field) as i32)
+}
+fn rec_i32(b: &mut Bufs, at: usize, field: usize) -> i32 {
+    b.ring.buf().get::<i32>((at + 8 + field) as i32)
+}
+
+const CLIENT_ID: i64 = 100; // the correlation counter starts here; DriverProxy::new draws the client id from it
+
+fn fresh(b: &mut Bufs, driver_timeout: u64) -> ClientConductor {
+    b.set_correlation_counter(CLIENT_ID);
+    b.set_driver_heartbeat(-1);
+    let c = conductor(b, driver_timeout, 5000, 5000);
+    unsafe {
+        SEEN.errors = 0;
+        SEEN.avail_counters = 0;
+        SEEN.unavail_counters = 0;
+        SEEN.new_subs = 0;
+        SEEN.new_pubs = 0;
+        SEEN.closes = 0;
+    }
+    c
+}
+
+fn text(bytes: &[u8]) -> CString {
+    unsafe { CString::from_vec_unchecked(bytes.to_vec()) }
+}
+
+/// Counter: add -> {ready | ready for a foreign id | error | error for a foreign id | nothing, with a clock advance}
+/// -> find twice -> release. Event choice, counter id, type id, key bytes, error code, times symbolic.
+// @verif tier=quick unwind=6 fs=1300 timeout=1500
+#[kani::proof]
+#[kani::stub(std::hash::RandomState::new, stub_random_state)]
+fn c09_counter_registration_protocol() {
+    let mut b = Bufs::new();
+    let driver_timeout = any_timeout();
+    let mut c = fresh(&mut b, driver_timeout);
+    let t0 = any_time();
+    unsafe { SEEN.now = t0 };
+    let type_id: i32 = kani::any();
+    let key: [u8; 4] = kani::any();
+    let id = vok!(c.add_counter(type_id, &key, "ab"), "C09: add_counter on an open conductor succeeds");
+    // exactly one well-formed ADD_COUNTER command with a fresh correlation id
+    assert!(id == CLIENT_ID + 1, "C09: add returns the fresh correlation id");
+    assert!(b.ring_tail() == 48, "C09: exactly one command record was written (8 + 20 + 4+4 + 4+2 = 42 -> 48)");
+    assert!(rec_len(&mut b, 0) == 42 && rec_type(&mut b, 0) == 0x09, "C09: ADD_COUNTER record with protocol type code and length");
+    assert!(rec_i64(&mut b, 0, 0) == CLIENT_ID && rec_i64(&mut b, 0, 8) == id && rec_i32(&mut b, 0, 16) == type_id, "C09: client id, correlation id, type id on the wire");
+    assert!(rec_i32(&mut b, 0, 20) == 4 && b.ring.0[8 + 24] == key[0] && b.ring.0[8 + 27] == key[3], "C09: key on the wire");
+    assert!(rec_i32(&mut b, 0, 28) == 2 && b.ring.0[8 + 32] == b'a' && b.ring.0[8 + 33] == b'b', "C09: label on the wire");
+
+    let event: u8 = kani::any();
+    kani::assume(event < 5);
+    let counter_id: i32 = kani::any();
+    kani::assume(counter_id == 0 || counter_id == 1);
+    let err_code: i32 = kani::any();
+    match event {
+        0 => c.on_available_counter(id, counter_id),
+        1 => c.on_available_counter(id + 1000, counter_id), // answer for a foreign registration
+        2 => c.on_error_response(id, err_code, text(b"no")),
+        3 => c.on_error_response(id + 1000, err_code, text(b"no")),
+        _ => {}
+    }
+    let t1 = any_time();
+    kani::assume(t1 >= t0);
+    unsafe { SEEN.now = t1 };
+    let first = c.find_counter(id);
+    let second = c.find_counter(id);
+    match event {
+        0 => {
+            let (x, y) = (vok!(first, "C09: a ready counter is found"), vok!(second, "C09: a ready counter is found again"));
+            assert!(Arc::ptr_eq(&x, &y), "C09: repeated lookups yield the same counter while it is held");
+            assert!(x.id() == counter_id && x.registration_id() == id, "C09: the counter carries the driver's counter id and its registration id");
+            assert!(unsafe { SEEN.avail_counters } == 1 && unsafe { SEEN.last_id } == id, "C09: available-counter callback fired once with the registration id");
+            std::mem::forget(x);
+            std::mem::forget(y);
+        }
+        2 => {
+            assert!(matches!(first, Err(AeronError::RegistrationException(code, _)) if code == err_code), "C09: the driver's error is reported");
+            assert!(matches!(second, Err(AeronError::Generic(GenericError::CounterNotFound))), "C09: the driver's error is reported once, then the registration is gone");
+            std::mem::forget(first);
+            std::mem::forget(second);
+        }
+        _ => {
+            // no (matching) answer: not ready until the driver timeout has passed, then a driver timeout - never earlier
+            let timed_out = t1 > t0 + driver_timeout;
+            if timed_out {
+                assert!(matches!(first, Err(AeronError::DriverTimeout(DriverInteractionError::NoResponse(_)))), "C09: an unanswered registration is reported as a driver timeout once the timeout has passed");
+            } else {
+                assert!(matches!(first, Err(AeronError::Generic(GenericError::CounterNotReadyYet { .. }))), "C09: an unanswered registration is not ready (and not timed out) before the driver timeout");
+            }
+            assert!(event != 1 || unsafe { SEEN.avail_counters } == 1, "C09: availability of foreign counters is still announced to the handlers");
+            std::mem::forget(first);
+            std::mem::forget(second);
+        }
+    }
+    // release: exactly one REMOVE_COUNTER command, then the registration is unknown
+    if event != 2 {
+        let tail = b.ring_tail();
+        let r = c.release_counter(id);
+        assert!(r.is_ok(), "C09: releasing a known registration succeeds");
+        assert!(b.ring_tail() == tail + 32 && rec_len(&mut b, 48) == 32 && rec_type(&mut b, 48) == 0x0A, "C09: exactly one REMOVE_COUNTER command");
+        assert!(rec_i64(&mut b, 48, 0) == CLIENT_ID && rec_i64(&mut b, 48, 8) == id + 1 && rec_i64(&mut b, 48, 16) == id, "C09: remove carries a fresh correlation id and the registration id");
+        let again = c.release_counter(id);
+        assert!(again.is_err() && b.ring_tail() == tail + 32, "C09: a second release sends nothing");
+        std::mem::forget(again);
+    }
+    kani::cover!(event == 4 && t1 == t0 + driver_timeout, "[must] exact registration-timeout boundary");
+    kani::cover!(event == 0, "[must] ready path");
+    kani::cover!(event == 2, "[must] error path");
+    std::mem::forget(c);
+}
+
+fn on_image(_img: &Image) {}
+
+/// Subscription: add -> {ready | foreign ready | error | nothing} -> find twice -> release.
+macro_rules! sub_protocol {
+    ($name:ident, $event:expr) => {
+#[kani::proof]
+#[kani::stub(std::hash::RandomState::new, stub_random_state)]
+fn $name() {
+    let mut b = Bufs::new();
+    let driver_timeout = any_timeout();
+    let mut c = fresh(&mut b, driver_timeout);
+    let t0 = any_time();
+    unsafe { SEEN.now = t0 };
+    let stream: i32 = kani::any();
+    let id = vok!(
+        c.add_subscription(text(b"ch"), stream, Box::new(on_image as fn(&Image)), Box::new(on_image as fn(&Image))),
+        "C09: add_subscription on an open conductor succeeds"
+    );
+    assert!(id == CLIENT_ID + 1, "C09: add returns the fresh correlation id");
+    // subscription message: client @0, correlation @8, registration correlation @16 (-1), stream @24, channel length @28, channel @32
+    assert!(b.ring_tail() == 48 && rec_len(&mut b, 0) == 8 + 32 + 2 && rec_type(&mut b, 0) == 0x04, "C09: exactly one ADD_SUBSCRIPTION record");
+    assert!(rec_i64(&mut b, 0, 0) == CLIENT_ID && rec_i64(&mut b, 0, 8) == id && rec_i64(&mut b, 0, 16) == -1 && rec_i32(&mut b, 0, 24) == stream, "C09: subscription fields on the wire");
+    assert!(rec_i32(&mut b, 0, 28) == 2 && b.ring.0[8 + 32] == b'c' && b.ring.0[8 + 33] == b'h', "C09: channel on the wire");
+
+    let event: u8 = $event;
+    let status_id: i32 = kani::any();
+    let err_code: i32 = kani::any();
+    match event {
+        0 => c.on_subscription_ready(id, status_id),
+        1 => c.on_subscription_ready(id + 1000, status_id),
+        2 => c.on_error_response(id, err_code, text(b"no")),
+        3 => c.on_error_response(id + 1000, err_code, text(b"no")),
+        _ => {}
+    }
+    let t1 = any_time();
+    kani::assume(t1 >= t0);
+    unsafe { SEEN.now = t1 };
+    let first = c.find_subscription(id);
+    let second = c.find_subscription(id);
+    match event {
+        0 => {
+            let (x, y) = (vok!(first, "C09: a ready subscription is found"), vok!(second, "C09: a ready subscription is found again"));
+            assert!(Arc::ptr_eq(&x, &y), "C09: repeated lookups yield the same subscription while it is held");
+            assert!(unsafe { SEEN.new_subs } == 1 && unsafe { SEEN.last_id } == id, "C09: new-subscription callback fired once");
+            {
+                let g = x.lock().unwrap();
+                assert!(g.registration_id() == id && g.stream_id() == stream && g.channel_status_id() == status_id, "C09: the subscription carries its registration, stream and channel status ids");
+            }
+            std::mem::forget(x);
+            std::mem::forget(y);
+        }
+        2 => {
+            assert!(matches!(first, Err(AeronError::RegistrationException(code, _)) if code == err_code), "C09: the driver's error is reported");
+            assert!(matches!(second, Err(AeronError::Generic(GenericError::SubscriptionNotFound))), "C09: the error is reported once, then the registration is gone");
+            std::mem::forget(first);
+            std::mem::forget(second);
+        }
+        _ => {
+            if t1 > t0 + driver_timeout {
+                assert!(matches!(first, Err(AeronError::DriverTimeout(DriverInteractionError::NoResponse(_)))), "C09: unanswered registration -> driver timeout once the timeout has passed");
+            } else {
+                assert!(matches!(first, Err(AeronError::SubscriptionNotReady(x)) if x == id), "C09: unanswered registration is not ready before the driver timeout");
+            }
+            assert!(unsafe { SEEN.new_subs } == 0, "C09: answers for foreign ids do not create a subscription");
+            std::mem::forget(first);
+            std::mem::forget(second);
+        }
+    }
+    if event != 2 {
+        let tail = b.ring_tail();
+        let r = c.release_subscription(id, Vec::new());
+        assert!(r.is_ok(), "C09: releasing a known registration succeeds");
+        assert!(b.ring_tail() == tail + 32 && rec_len(&mut b, 48) == 32 && rec_type(&mut b, 48) == 0x05, "C09: exactly one REMOVE_SUBSCRIPTION command");
+        assert!(rec_i64(&mut b, 48, 8) == id + 1 && rec_i64(&mut b, 48, 16) == id, "C09: remove carries a fresh correlation id and the registration id");
+        let again = c.release_subscription(id, Vec::new());
+        assert!(again.is_err() && b.ring_tail() == tail + 32, "C09: a second release sends nothing");
+        std::mem::forget(again);
+    }
+    kani::cover!(event != 4 || t1 == t0 + driver_timeout, "[must] instance reaches the end (exact registration-timeout boundary when unanswered)");
+    std::mem::forget(c);
+}
+    };
+}
+// @verif tier=quick unwind=6 fs=1300 timeout=1500
+sub_protocol!(c09_subscription_ready_find_release, 0);
+// @verif tier=quick unwind=6 fs=1300 timeout=1500
+sub_protocol!(c09_subscription_foreign_ready_ignored, 1);
+// @verif tier=quick unwind=6 fs=1300 timeout=1500
+sub_protocol!(c09_subscription_error_reported_once, 2);
+// @verif tier=thorough unwind=6 fs=1300 timeout=1500
+sub_protocol!(c09_subscription_foreign_error_ignored, 3);
+// @verif tier=quick unwind=6 fs=1300 timeout=1500
+sub_protocol!(c09_subscription_unanswered_times_out, 4);
